@@ -351,7 +351,7 @@ sexp sexp_read_bignum (sexp ctx, sexp in, sexp_uint_t init,
   } else if (c=='/') {
     res = sexp_bignum_normalize(res);
     res = sexp_make_ratio(ctx, res, SEXP_ONE);
-    sexp_ratio_denominator(res) = sexp_read_number(ctx, in, 10, 0);
+    sexp_ratio_denominator(res) = sexp_read_number(ctx, in, base, 0);
 #if SEXP_USE_COMPLEX
     if (sexp_complexp(sexp_ratio_denominator(res))) { /* NNN/DDD+IIIi or NNN/DDDi */
       imag = sexp_ratio_denominator(res);
